@@ -121,9 +121,9 @@ class LocalLink:
         packet: ll.ControlPdu,
     ):
         if not (receiver_controller := self.find_le_controller(receiver_address)):
-            raise core.InvalidArgumentError(
-                f"Unable to find controller for address {receiver_address}"
-            )
+            # Like ACL data, a PDU for a controller that is not on the link is lost
+            logger.warning(f"No controller for address {receiver_address}, PDU dropped")
+            return
         asyncio.get_running_loop().call_soon(
             lambda: receiver_controller.on_ll_control_pdu(sender_address, packet)
         )
@@ -139,9 +139,9 @@ class LocalLink:
         packet: lmp.Packet,
     ):
         if not (receiver_controller := self.find_classic_controller(receiver_address)):
-            raise core.InvalidArgumentError(
-                f"Unable to find controller for address {receiver_address}"
-            )
+            # Like ACL data, a PDU for a controller that is not on the link is lost
+            logger.warning(f"No controller for address {receiver_address}, PDU dropped")
+            return
         asyncio.get_running_loop().call_soon(
             lambda: receiver_controller.on_lmp_packet(
                 sender_controller.public_address, packet
